@@ -1,9 +1,13 @@
 //! vrl-verif-harness: runs the real vrl code on generated cases and writes the line-protocol
 //! files compared against the Lean model by /verif/bin/check.
+mod arith;
+mod c10;
+mod c11;
 mod c18;
 mod gens;
 mod rng;
 mod sink;
+mod vrlrun;
 mod wire;
 
 use sink::Reply;
@@ -14,11 +18,16 @@ use std::path::PathBuf;
 pub fn exec(op: &str, inputs: &[String]) -> Option<Reply> {
     // first module that recognises the op answers
     None.or_else(|| c18::exec(op, inputs))
+        .or_else(|| arith::exec(op, inputs))
+        .or_else(|| c10::exec(op, inputs))
+        .or_else(|| c11::exec(op, inputs))
 }
 
 fn generate(prop: &str, sink: &mut sink::Sink, rng: &mut rng::Rng, n: u64) -> bool {
     match prop {
         "C18" => c18::generate(sink, rng, n),
+        "C10" => c10::generate(sink, rng, n),
+        "C11" => c11::generate(sink, rng, n),
         _ => return false,
     }
     true
